@@ -106,6 +106,7 @@ type envA struct {
 	tgt            string
 	srcDir         string
 	m              *rm.Model
+	planted        map[string]bool // files the harness itself left outside the algorithm directories (nothing is claimed about them)
 	signedDigest   string
 	closeRefForm   int
 	closeRefDigest string
@@ -249,7 +250,7 @@ func restylePre(dir string, dup, untagged bool) error {
 
 func setupA(cs Case, ev *evid.Collector) (*envA, error) {
 	c := cs.A
-	e := &envA{cs: cs, c: c, ev: ev, classes: map[string]bool{}, everR: map[string]bool{}}
+	e := &envA{cs: cs, c: c, ev: ev, classes: map[string]bool{}, everR: map[string]bool{}, planted: map[string]bool{}}
 	tmp, err := os.MkdirTemp("", "c08a")
 	if err != nil {
 		return nil, err
@@ -410,8 +411,70 @@ func copyOpts(platforms []string, referrers, digestTags, force, external, child 
 	return out
 }
 
+// failingReader delivers data up to failAt and then fails.
+type failingReader struct {
+	data   []byte
+	pos    int
+	failAt int
+	err    error
+	onFail func()
+}
+
+func (r *failingReader) Read(p []byte) (int, error) {
+	if r.pos >= r.failAt {
+		if r.onFail != nil {
+			r.onFail()
+		}
+		return 0, r.err
+	}
+	n := copy(p, r.data[r.pos:r.failAt])
+	r.pos += n
+	return n, nil
+}
+
+// closureBlobs lists the blob digests below a node (sorted, unique).
+func closureBlobs(g *imggen.Graph, id int) []string {
+	seen := map[string]bool{}
+	for _, ni := range g.ManifestClosure(id) {
+		for _, b := range g.Nodes[ni].Blobs {
+			if _, ok := g.Blobs[b]; ok {
+				seen[b] = true
+			}
+		}
+	}
+	return sortedKeys(seen)
+}
+
+// corruptBlob makes the source repository serve other bytes (same length) for the n-th blob below a node and returns
+// the function that puts the right bytes back.
+func corruptBlob(m *rm.Model, repo string, g *imggen.Graph, id, n int) func() {
+	bl := closureBlobs(g, id)
+	if len(bl) == 0 {
+		return func() {}
+	}
+	d := bl[n%len(bl)]
+	m.Lock()
+	defer m.Unlock()
+	r := m.Hosts[srcHost].Repos[repo]
+	if r == nil {
+		return func() {}
+	}
+	orig, ok := r.Blobs[d]
+	if !ok || len(orig) == 0 {
+		return func() {}
+	}
+	bad := append([]byte{}, orig...)
+	bad[len(bad)/2] ^= 0x5a
+	r.Blobs[d] = bad
+	return func() {
+		m.Lock()
+		r.Blobs[d] = orig
+		m.Unlock()
+	}
+}
+
 func addFault(m *rm.Model, f *FaultSpec, pathHas string) {
-	if f == nil {
+	if f == nil || f.Kind == "wrong-bytes" || f.Kind == "cancel" {
 		return
 	}
 	ft := rm.NewFault(f.Kind)
@@ -455,6 +518,26 @@ func (e *envA) doCopy(ctx context.Context, op Op) *evid.Violation {
 	}
 	tgt := e.tgtRefD(op.Tag, n.Digest, op.WithDigest)
 	addFault(e.m, op.Fault, "")
+	restore := func() {}
+	if op.Fault != nil && op.Fault.Kind == "wrong-bytes" && op.From == "reg" {
+		restore = corruptBlob(e.m, srcRepo, g, op.Node, op.Fault.Nth)
+	}
+	cctx, cancel := context.WithTimeout(ctx, 60*time.Second)
+	var blobReqs atomic.Int32
+	faultHook := func(en *rm.Entry) {
+		// fault kind cancel: the copy's context ends when its Nth blob request arrives, the body breaks off mid-stream
+		if op.Fault != nil && op.Fault.Kind == "cancel" && en.Host == srcHost && en.Class == "blob-get" {
+			if int(blobReqs.Add(1))-1 == op.Fault.Nth%3 {
+				cancel()
+			}
+		}
+	}
+	if op.Fault != nil && op.Fault.Kind == "cancel" && op.From == "reg" {
+		// (after the request was answered: the response body is what breaks off)
+		e.m.Lock()
+		e.m.OnDone = faultHook
+		e.m.Unlock()
+	}
 	var mu sync.Mutex
 	var viol *evid.Violation
 	var finished atomic.Bool
@@ -528,16 +611,17 @@ func (e *envA) doCopy(ctx context.Context, op Op) *evid.Violation {
 		}))
 	}
 	bf, bi := listDigestFiles(e.tgt), e.readIndexBytes()
-	cctx, cancel := context.WithTimeout(ctx, 60*time.Second)
 	t0 := time.Now()
 	cerr := e.rc.ImageCopy(cctx, src, tgt, opts...)
 	finished.Store(true)
+	restore()
 	if cctx.Err() == context.DeadlineExceeded && time.Since(t0) > 50*time.Second {
 		e.watchdog = true
 	}
 	cancel()
 	e.m.Lock()
 	e.m.OnArrive = nil
+	e.m.OnDone = nil
 	e.m.Faults = nil
 	e.m.Unlock()
 	af, ai := listDigestFiles(e.tgt), e.readIndexBytes()
@@ -756,6 +840,16 @@ func (e *envA) closeAndJudge(ctxKind int, step string) *evid.Violation {
 	// (2) a collection was due (modified through this client since the last collection, no copy in flight):
 	// what is left under blobs/ is exactly R
 	e.class("A:close-due")
+	for k := range before.files {
+		if strings.HasSuffix(k, ".tmp") && !e.planted[k] {
+			e.class("A:due-close-with-temp-file-left-by-a-really-failed-push")
+		}
+	}
+	for rel := range before.other {
+		if !e.planted[rel] {
+			e.class("A:due-close-with-client-file-outside-algorithm-directories")
+		}
+	}
 	becameUnreachable := 0
 	for k := range before.files {
 		if d := keyDigest(k); d != "" && e.everR[d] {
@@ -787,6 +881,14 @@ func (e *envA) closeAndJudge(ctxKind int, step string) *evid.Violation {
 			leftDig = append(leftDig, k)
 		}
 	}
+	// ... and nothing else the client created lies anywhere under the layout (a temporary file of a push that failed
+	// part-way is a leftover temporary file wherever it was staged)
+	for _, rel := range sortedKeys(after.other) {
+		if e.planted[rel] {
+			continue
+		}
+		leftTmp = append(leftTmp, rel)
+	}
 	e.due = false
 	if len(leftDig) > 0 {
 		if v := e.report(evid.V("gc-left-unreachable-content", "%s: the layout was modified through this client since the last collection and no copy is in flight, Close returned nil, but %d file(s) that index.json does not reach are still under blobs/: %v (reachable set has %d digests)", step, len(leftDig), head(leftDig, 4), len(rb.info))); v != nil {
@@ -794,7 +896,7 @@ func (e *envA) closeAndJudge(ctxKind int, step string) *evid.Violation {
 		}
 	}
 	if len(leftTmp) > 0 {
-		if v := e.report(evid.V("gc-left-temporary-file", "%s: the layout was modified through this client since the last collection and no copy is in flight, Close returned nil, but leftover temporary file(s) are still under blobs/: %v", step, head(leftTmp, 4))); v != nil {
+		if v := e.report(evid.V("gc-left-temporary-file", "%s: the layout was modified through this client since the last collection and no copy is in flight, Close returned nil, but leftover temporary file(s) of the client are still in the layout: %v", step, head(leftTmp, 4))); v != nil {
 			return v
 		}
 	}
@@ -819,10 +921,13 @@ func (e *envA) plantTmp(i int, op Op) {
 	switch op.Name {
 	case 0: // what BlobPut leaves behind when it is interrupted
 		os.WriteFile(filepath.Join(dir, fmt.Sprintf("%d%d.tmp", 1000000+i, op.Node)), []byte("partial blob"), 0o666)
+		e.planted[fmt.Sprintf("sha256/%d%d.tmp", 1000000+i, op.Node)] = true
 	case 1: // what ManifestPut leaves behind
 		os.WriteFile(filepath.Join(dir, fmt.Sprintf("%s.%d.tmp", n.Digest[strings.IndexByte(n.Digest, ':')+1:], 3000+i)), n.Body, 0o666)
+		e.planted[fmt.Sprintf("sha256/%s.%d.tmp", n.Digest[strings.IndexByte(n.Digest, ':')+1:], 3000+i)] = true
 	case 2: // empty temp file
 		os.WriteFile(filepath.Join(dir, fmt.Sprintf("%d.tmp", 77000+i)), nil, 0o666)
+		e.planted[fmt.Sprintf("sha256/%d.tmp", 77000+i)] = true
 	case 4: // an unreferenced object under another algorithm directory
 		data := []byte(fmt.Sprintf("unreferenced-sha384-%d", i))
 		sum := sha512.Sum384(data)
@@ -832,6 +937,7 @@ func (e *envA) plantTmp(i int, op Op) {
 		}
 	case 5: // a file directly in blobs/ (the collector only looks into the algorithm directories; nothing is claimed about it)
 		os.WriteFile(filepath.Join(e.tgt, "blobs", "README.txt"), []byte("left by another tool"), 0o666)
+		e.planted["blobs/README.txt"] = true
 	case 6: // a file in the algorithm directory that is neither a digest nor a temporary file (nothing is claimed about it)
 		os.WriteFile(filepath.Join(dir, "notes.txt"), []byte("left by another tool"), 0o666)
 	default: // a valid blob nobody references, stored by another tool
@@ -945,9 +1051,33 @@ func checkA(cs Case, ev *evid.Collector) *evid.Violation {
 			}
 			bd := e.blobs[((op.Blob%len(e.blobs))+len(e.blobs))%len(e.blobs)]
 			b := g.Blobs[bd]
-			e.trace = append(e.trace, fmt.Sprintf("%d:blob %.19s", i, bd))
-			if err := e.api.BlobPut(ctx, e.tgtRef(0, ""), descriptor.Descriptor{Digest: digest.Digest(bd), Size: int64(len(b.Data))}, bytes.NewReader(b.Data)); err == nil {
+			e.trace = append(e.trace, fmt.Sprintf("%d:blob %.19s bad=%d", i, bd, op.Bad))
+			desc := descriptor.Descriptor{Digest: digest.Digest(bd), Size: int64(len(b.Data))}
+			var rdr io.Reader = bytes.NewReader(b.Data)
+			bctx, bcancel := context.WithCancel(ctx)
+			switch op.Bad {
+			case 1: // other bytes than the declared digest names
+				other := append([]byte{}, b.Data...)
+				if len(other) == 0 {
+					other = []byte("x")
+					desc.Size = 1
+				} else {
+					other[len(other)/2] ^= 0x5a
+				}
+				rdr = bytes.NewReader(other)
+			case 2: // the reader fails mid-stream
+				rdr = &failingReader{data: b.Data, failAt: len(b.Data) / 2, err: io.ErrUnexpectedEOF}
+			case 3: // the context is cancelled while the body is being read
+				rdr = &failingReader{data: b.Data, failAt: len(b.Data) / 2, err: context.Canceled, onFail: bcancel}
+			case 4: // the declared size is wrong
+				desc.Size = int64(len(b.Data)) + 1
+			}
+			err := e.api.BlobPut(bctx, e.tgtRef(0, ""), desc, rdr)
+			bcancel()
+			if err == nil {
 				e.due = true
+			} else if op.Bad != 0 {
+				e.class("A:blob-push-failed-part-way")
 			}
 		case "import":
 			tgtI := e.tgtRefD(op.Tag, n.Digest, op.WithDigest)
